@@ -86,3 +86,13 @@ _p('C24', secs=(20, 300), runs=(100000, 10000000),
     assumptions=['checks happen at least once a minute (premise of the statement)', 'start time of day < end time of day (Configuration::create_schedule rejects anything else)', 'the walk starts at an instant where the schedule is inactive, with prev=false', 'no clock jumps'] + COMMON_ASSUME[1:],
     level_text='seeded exploration of schedule configurations over simulated weeks; every call of the real function is compared with the interval model; the weekday-name clause is exhaustive up to length 3',
     level_note='trusted: the interval reference model in harness/c24.cpp, the simulated clock; decode_dow reference reading: digit 0-6 alone, or unique first letter (m,w,f), or first two letters for s/t names; further characters are ignored')
+
+_p('C29', secs=(20, 300), runs=(100000, 10000000),
+    title='Log and store rotation keeps generations and stays in bounds',
+    technique='deterministic simulation of directory histories: real FileLogger rotation on a private scratch directory (logger thread under the seeded scheduler, rename/access calls recorded by the link-time wrappers) and real FilePersister purge rotation on the simulated file layer, against a reference model of generations, under ASan/UBSan/_GLIBCXX_ASSERTIONS',
+    rule='one evaluation = one seeded directory state (0-7 pre-existing generations incl. ones around the 1024 cap, decoy files) + rotation count from {0,1,2,3,5,1023,1024,1025,1100} or random 0..1100 + append flag + 0-2 (thorough 0-4) explicit rotate()/rotate(force) calls, for the file logger (2/3) or the file persister purge (1/3); non-trivial = at least one rotation happened with at least 2 files in the model; distinct = distinct event-log hash',
+    real=['FIX8::FileLogger ctor/rotate, logger thread', 'FIX8::FilePersister::initialise(purge=true) rotation', 'rename/access as issued by fix8 (recorded)'],
+    stub=['persister files: in-memory simfs; logger files: real files in a private scratch directory (std::ofstream cannot be redirected), removed afterwards'],
+    assumptions=['no fault or schedule dimension in the statement: the simulator contributes controlled directory state, recorded file-system calls, generated histories and the sanitised build', 'compressed logs (.gz names) not exercised'] + COMMON_ASSUME[1:],
+    level_text='seeded exploration of rotation counts and generation sets; oracle: generation shift model with cap 1024, decoys untouched, every rename issued stays inside the generation set, append-mode logs not rotated unless forced, no sanitizer/assertion abort for any count',
+    level_note='trusted: reference generation model (sequential shift of existing generations), recorded calls; out-of-bounds reads inside vector capacity are caught by _GLIBCXX_ASSERTIONS, others by ASan')
